@@ -1,4 +1,5 @@
 """Data interchange rules: R-SERDE-KINDS, R-SERDE-ENC, R-PARSE-ERR (C20)."""
+import re
 from ..engine import Broken, Finding, RuleResult, require
 from ..mir import line_of, op_base, op_local, op_place, place_fields, place_variant
 
@@ -330,4 +331,90 @@ def rule_parse_err(cx, tier):
     r.analysed = {"functions": n}
     r.floor("functions in the interchange libraries", n, 9)
     r.nontrivial = max(r.nontrivial, 2)
+    return r
+
+
+# ---------------------------------------------------------------------------------------------
+# R-SERDE-NARROW (C20): a number that does not fit the requested Rust type is an error, not a different number
+
+def rule_serde_narrow(cx, tier):
+    r = RuleResult("R-SERDE-NARROW", "koto_serde::Deserializer hands an integer visitor method (visit_i8 .. visit_u64, "
+                                     "visit_i64 for the 64/128-bit requests) a value that was converted from the KNumber with a "
+                                     "checked conversion: `From<KNumber> for <int>` saturates integers and truncates floats, so "
+                                     "300 becomes the u8 255 and 1.5 becomes 1 instead of an out-of-range error")
+    F = cx.F
+    n = 0
+    for fn in F.fns.values():
+        if fn.crate.uname != "koto_serde" or fn.derived or fn.impl_trait != "Deserializer" or \
+                not (fn.method or "").startswith("deserialize_"):
+            continue
+        du = cx.du(fn)
+        for c in fn.calls():
+            m = re.match(r"visit_(i8|i16|i32|i64|i128|u8|u16|u32|u64|u128)$", (c.pretty or c.short or "").rsplit("::", 1)[-1])
+            if not m or len(c.args) < 2:
+                continue
+            n += 1
+            r.instances += 1
+            r.nontrivial += 1
+            # where does the value come from
+            l = op_base(c.args[1])
+            how = "unknown"
+            conv = None
+            for _ in range(8):
+                if l is None:
+                    break
+                d = du.single_def(l)
+                if d is None:
+                    break
+                if d[2] == "call":
+                    cc = d[3]
+                    t = F.fns.get(cc.resolved)
+                    last = (cc.pretty or cc.short or "").rsplit("::", 1)[-1]
+                    if t is not None and t.impl_trait == "From" and t.crate.uname == "koto_runtime" and \
+                            "KNumber" in (t.qual or ""):
+                        how, conv = "unchecked", cc
+                        break
+                    if last in ("try_from", "try_into"):
+                        # checked only if the source is an integer, not the KNumber itself (TryFrom<KNumber> is the blanket
+                        # impl over the unchecked From)
+                        aty = fn.crate.tstr(cc.arg_ty(0)) if cc.args else ""
+                        if "KNumber" in aty:
+                            how, conv = "unchecked", cc
+                        else:
+                            how = "checked"
+                        break
+                    if cc.is_("Try::branch", "Into::into", "From::from") and cc.args:
+                        l = op_base(cc.args[0])
+                        continue
+                    if t is not None and t.crate.uname == "koto_serde":
+                        # a helper of this crate: checked if it narrows an integer with try_from and never uses the
+                        # unchecked KNumber conversion
+                        inner = [(x.pretty or x.short or "").rsplit("::", 1)[-1] for x in t.calls()]
+                        unchecked = any(F.fns.get(x.resolved) is not None and F.fns[x.resolved].impl_trait == "From" and
+                                        "KNumber" in (F.fns[x.resolved].qual or "") and
+                                        F.fns[x.resolved].crate.uname == "koto_runtime" for x in t.calls())
+                        if ("try_from" in inner or "try_into" in inner) and not unchecked:
+                            how = "checked (helper " + (t.qual or t.name).rsplit("::", 1)[-1] + ")"
+                        elif unchecked:
+                            how, conv = "unchecked", cc
+                    break
+                rv = d[3]
+                if rv[0] in ("use", "cast"):
+                    pl = op_place(rv[1] if rv[0] == "use" else rv[2])
+                    if pl is not None and place_variant(pl) == "I64":
+                        how = "exact (payload of KNumber::I64)"
+                        break
+                    l = pl[0] if pl is not None else None
+                    continue
+                break
+            r.sample({"method": fn.method, "visitor": m.group(0), "conversion": how})
+            if how == "unknown":
+                r.undecided.append(f"{fn.method}: origin of the value passed to {m.group(0)} not understood")
+            if how == "unchecked":
+                r.add(Finding("R-SERDE-NARROW", fn.qual, m.group(0),
+                              f"{fn.method} converts the KNumber with the saturating / truncating `From<KNumber>` conversion "
+                              f"before calling {m.group(0)}: an integer outside the type's range is clamped and a fractional "
+                              f"float is truncated instead of being reported as out of range", fn.file, c.line))
+    r.analysed = {"integer_visitor_calls_in_deserialize_methods": n}
+    r.floor("integer visitor calls in Deserializer::deserialize_*", n, 8)
     return r
